@@ -280,23 +280,21 @@ fn reference_events(locs: &[Loc], ops: &[DOp]) -> Vec<Loc> {
     let mut single = false;
     let mut active = false;
     let mut set: BTreeSet<Loc> = BTreeSet::new();
-    let mut stale: Option<Loc> = None;
     for o in ops {
         match o {
             DOp::Single(b) => { single = *b; active = true; }
             DOp::Set(l) => { if l.1 % 4 == 0 { set.insert(*l); active = true; } }
             DOp::Remove(l) => { if l.1 % 4 == 0 { set.remove(l); active = true; } }
             DOp::Clear => set.clear(),
-            DOp::Abandoned(l) => { stale = Some(*l); active = true; }
+            // the abandoned session set and removed a breakpoint (which activates the debugger); the state
+            // it was suspended in is forgotten by the next transaction (Debugger::clear_last_state in init_inner)
+            DOp::Abandoned(_) => { active = true; }
         }
     }
     let mut out = vec![];
-    for (i, l) in locs.iter().enumerate() {
+    for l in locs.iter() {
         if !active { break; }
-        let want = single || set.contains(l);
-        // the location an abandoned session stopped at is not reported if the new run starts there
-        if i == 0 && stale == Some(*l) { continue; }
-        if want { out.push(*l); }
+        if single || set.contains(l) { out.push(*l); }
     }
     out
 }
@@ -402,11 +400,17 @@ fn do_scenario(scn: &Scenario, configs: Option<Vec<(String, Vec<DOp>)>>, rng: &m
                 &format!("{kind}: {} events reported, {} predicted from (configuration, executed locations)", ev_locs.len(), reference.len()), replay.clone());
         }
         if has_abandoned {
-            // the stale last state is finding material for C31; record what it did
-            let fresh: Vec<DOp> = ops.iter().filter(|o| !matches!(o, DOp::Abandoned(_))).cloned().collect();
-            let mut active_fresh = fresh.clone();
-            active_fresh.insert(0, DOp::Single(false));
-            if reference_events(&locs, &active_fresh) != ev_locs { out.count("stale-last-state-swallowed-first-event"); }
+            // regression detector for finding F9 (repaired by 22c6df9): the events must be those of the same
+            // configuration without the abandoned session
+            let fresh: Vec<DOp> = ops.iter().map(|o| if matches!(o, DOp::Abandoned(_)) { DOp::Single(false) } else { o.clone() }).collect();
+            // (Single(false) placed where the session was keeps "activated" without changing anything else, unless
+            //  single stepping was switched on before — it never is in generated configurations)
+            let expect = reference_events(&locs, &fresh);
+            if expect != ev_locs && ev_locs.len() + 1 == expect.len() && expect[1..] == ev_locs[..] {
+                out.oracle_fail("debugger-last-state-not-reset-after-abandoned-session",
+                    &format!("{kind}: the first debug event {:?} of the transaction is swallowed after a session abandoned on the same instance", expect.first().map(|l| l.1)), replay.clone());
+            }
+            out.count("abandoned-session-then-new-transaction");
         }
         total_events += ev_locs.len();
         let cops: Vec<String> = ops.iter().filter_map(|o| match o {
@@ -441,6 +445,15 @@ fn run_c32(args: &Args, out: &mut Out) {
         let ops = ops_from_json(&v["ops"]);
         do_scenario(&scn, Some(vec![(v["kind"].as_str().unwrap_or("replay").to_string(), ops)]), &mut rng, 1, out, &mut st, 0);
         return;
+    }
+    // corpus, runs first: finding F9 (repaired by 22c6df9) — a session abandoned at script offset 0, then the same
+    // transaction with a breakpoint there; tight loop and grammar script
+    for v in [3u64, 0, 4] {
+        let scn = loop_scenario(&mut Rng::new(0xF9 + v), v);
+        let first: Loc = (ContractId::zeroed(), 0);
+        let cfgs = vec![("after-abandoned-session".to_string(), vec![DOp::Abandoned(first), DOp::Set(first)]),
+                        ("after-abandoned-session".to_string(), vec![DOp::Abandoned(first), DOp::Single(true)])];
+        do_scenario(&scn, Some(cfgs), &mut rng, 2, out, &mut st, 0);
     }
     let n = args.scale(300, 10_000);
     let n_cfg = if args.oracle_only { 8 } else { 5 };
